@@ -3,8 +3,8 @@ import itertools
 
 from .. import poly
 from ..poly import Poly
-from ..interp import Arr, Pose, Obj, Interp, explore, PathRaise, sym_pose, sym_vec, sym_mat, Unsupported, LossyOperation
-from ..algebra import POSES, CDIM, run_tasks, ObFail, run_obligation
+from ..interp import ga, sa, Arr, Pose, Obj, Interp, explore, PathRaise, sym_pose, sym_vec, sym_mat, Unsupported, LossyOperation
+from ..algebra import custom_edge, POSES, CDIM, run_tasks, ObFail, run_obligation
 from ..model import AnalysisError
 
 LEVEL = "exploration"
@@ -145,10 +145,10 @@ def binding_obligation():
             for pair in itertools.permutations(range(3), 2):
                 verts = [it.construct("Vertex", [ids[k], sym_pose("PoseR2", "p%d" % k)]) for k in range(3)]
                 vlist = [verts[k] for k in perm]
-                edge = Obj("BaseEdge", vertex_ids=[ids[pair[0]], ids[pair[1]]], vertices=None, information=None, estimate=None)
+                edge = custom_edge(it, [ids[pair[0]], ids[pair[1]]], None, None, None)
                 edge.stubs["is_valid"] = lambda: True
                 g = it.construct("Graph", [[edge], vlist])
-                bound = edge.fields.get("vertices")
+                bound = ga(edge, "vertices", None)
                 if not isinstance(bound, list) or len(bound) != 2:
                     raise ObFail("after construction edge.vertices is %r" % (bound,))
                 for k in (0, 1):
@@ -169,15 +169,15 @@ def concrete_ids_obligation(idset):
             edges = []
             for a in range(len(ids)):
                 b = (a + 1) % len(ids)
-                e = Obj("BaseEdge", vertex_ids=[ids[a], ids[b]], vertices=None, information=None, estimate=None)
-                e.stubs["is_valid"] = (lambda e=e: all(v.fields["id"] == w for v, w in zip(e.fields["vertices"], e.fields["vertex_ids"])))
+                e = custom_edge(it, [ids[a], ids[b]], None, None, None)
+                e.stubs["is_valid"] = (lambda e=e: all(ga(v, "id") == w for v, w in zip(ga(e, "vertices"), ga(e, "vertex_ids"))))
                 edges.append((e, a, b))
             try:
                 it.construct("Graph", [[e for e, _, _ in edges], verts])
             except PathRaise as ex:
                 raise ObFail("a consistent graph whose vertex ids are %s in list order is rejected (%s)" % ([idset[k] for k in perm], ex.exc))
             for e, a, b in edges:
-                bound = e.fields.get("vertices")
+                bound = ga(e, "vertices", None)
                 if not isinstance(bound, list) or len(bound) != 2 or bound[0] is not verts[a] or bound[1] is not verts[b]:
                     raise ObFail("with vertex ids %s in list order, the edge naming ids (%s, %s) is bound to other vertices" % (
                         [idset[k] for k in perm], idset[perm[a]], idset[perm[b]]))
@@ -193,16 +193,16 @@ def prebound_obligation():
         ids = [Poly.var("ida"), Poly.var("idb")]
         verts = [it.construct("Vertex", [ids[k], sym_pose("PoseR2", "p%d" % k)]) for k in range(2)]
         foreign = [it.construct("Vertex", [ids[k], sym_pose("PoseR2", "f%d" % k)]) for k in range(2)]
-        edge = Obj("BaseEdge", vertex_ids=list(ids), vertices=list(foreign), information=None, estimate=None)
+        edge = custom_edge(it, list(ids), None, None, list(foreign))
         edge.stubs["is_valid"] = lambda: True
         it.construct("Graph", [[edge], verts])
-        bound = edge.fields.get("vertices")
+        bound = ga(edge, "vertices", None)
         for k in (0, 1):
             if not isinstance(bound, list) or len(bound) != 2 or bound[k] is not verts[k]:
                 raise ObFail("an edge that was already attached to other vertex objects with the same ids stays attached to them "
                              "instead of being bound to the graph's own vertices")
         stray = it.construct("Vertex", [Poly.var("unknown"), sym_pose("PoseR2", "s")])
-        edge2 = Obj("BaseEdge", vertex_ids=[ids[0], Poly.var("unknown")], vertices=[verts[0], stray], information=None, estimate=None)
+        edge2 = custom_edge(it, [ids[0], Poly.var("unknown")], None, None, [verts[0], stray])
         edge2.stubs["is_valid"] = lambda: True
         try:
             it.construct("Graph", [[edge2], verts])
@@ -216,7 +216,7 @@ def unknown_id_obligation():
     def fn(it):
         ids = [Poly.var("ida"), Poly.var("idb")]
         verts = [it.construct("Vertex", [ids[k], sym_pose("PoseR2", "p%d" % k)]) for k in range(2)]
-        edge = Obj("BaseEdge", vertex_ids=[ids[0], Poly.var("unknown")], vertices=None, information=None, estimate=None)
+        edge = custom_edge(it, [ids[0], Poly.var("unknown")], None, None, None)
         edge.stubs["is_valid"] = lambda: True
         try:
             it.construct("Graph", [[edge], verts])
@@ -230,9 +230,9 @@ def invalid_edge_obligation(result):
     def fn(it):
         ids = [Poly.var("ida"), Poly.var("idb")]
         verts = [it.construct("Vertex", [ids[k], sym_pose("PoseR2", "p%d" % k)]) for k in range(2)]
-        good = Obj("BaseEdge", vertex_ids=list(ids), vertices=None, information=None, estimate=None)
+        good = custom_edge(it, list(ids), None, None, None)
         good.stubs["is_valid"] = lambda: True
-        bad = Obj("BaseEdge", vertex_ids=list(ids), vertices=None, information=None, estimate=None)
+        bad = custom_edge(it, list(ids), None, None, None)
         bad.stubs["is_valid"] = lambda: result
         for order in ([good, bad], [bad, good], [bad]):
             try:
